@@ -157,7 +157,9 @@ pub fn guarded<R>(f: impl FnOnce() -> R) -> Result<R, String> {
             let (loc, msg) = LAST_PANIC.with(|p| p.borrow_mut().take()).unwrap_or_default();
             // the harness crate's own locations are relative (`src/…`); hecs is a path dependency and
             // reports absolute ones
-            if loc.starts_with("src/") || loc.contains("/harness/src/") || msg.starts_with("harness:") {
+            // two accessors of the implementation contradicting each other is an outcome, not a harness bug
+            let inconsistency = msg.contains("impl-inconsistency:");
+            if !inconsistency && (loc.starts_with("src/") || loc.contains("/harness/src/") || msg.starts_with("harness:")) {
                 eprintln!("HARNESS-BUG panic at {}: {}", loc, msg);
                 std::process::exit(3);
             }
